@@ -107,6 +107,18 @@ func checks() []Check {
 			},
 		},
 		{
+			ID: "C01", Level: "model_checking",
+			Rule: "stateless model checking of the real engine on unix sockets: for each (LT|ET|ET+chunk, segmentation, FIN placement) every schedule within a delay bound x every per-callback consumption choice (13 operations, optional second step) and LT short-read deviation within a deviation bound; positional content oracle (byte i of the stream is a function of i), accounting consumed+InboundBuffered == bytes read(2) (ledger) at every step, views intact until the next read call, everything offered before OnClose(EOF), nothing left unread at quiescence",
+			Assumptions: append([]string{"AF_UNIX stream sockets; read buffer 1024 so that 500+600 wraps and 1500 grows the leftover ring", "short reads are injected in LT mode only (ET legitimately treats a short read as drained)"}, commonAssumptions...),
+			Units: []Unit{{Name: "inbound", Pkg: ".", Tags: "verifmc", Test: "TestMC_C01", Instrument: true, Shards: 16, BudgetQuick: 150, BudgetThorough: 1500, Env: []string{"GOMAXPROCS=2"}}},
+		},
+		{
+			ID: "C02", Level: "model_checking",
+			Rule: "stateless model checking of the real engine on unix sockets: for each (LT|ET, write program) every schedule within a delay bound x every kernel acceptance pattern (short write of 1/half, EAGAIN in LT) within a deviation bound, plus real back-pressure (peer stalls until the system is quiescent, payloads larger than the socket buffer); oracle: the peer receives exactly the accepted payloads, contiguous and in effect order (callback sequence merged with one goroutine's asynchronous sequence), OutboundBuffered accounting inside callbacks against the ledger, nothing stays unsent while the peer reads, one callback per accepted asynchronous write",
+			Assumptions: append([]string{"EAGAIN is injected in LT mode only (in ET no edge would follow a fake EAGAIN)", "payload j byte i = (37j+3i+1) mod 251"}, commonAssumptions...),
+			Units: []Unit{{Name: "outbound", Pkg: ".", Tags: "verifmc", Test: "TestMC_C02", Instrument: true, Shards: 16, BudgetQuick: 150, BudgetThorough: 1500, Env: []string{"GOMAXPROCS=2"}}},
+		},
+		{
 			ID: "C04", Level: "model_checking",
 			Rule:        "stateless model checking of the real engine (instrumented, real unix sockets/epoll) under the cooperative scheduler: every interleaving up to a preemption bound of main, event loops, peers and user threads over a catalogue of connection histories; an execution is one evaluation; per-connection lifecycle monitor",
 			Assumptions: append([]string{"AF_UNIX stream sockets (synchronous delivery/EOF/HUP), this kernel's epoll semantics", "connection identity = the Conn value handed to OnOpen"}, commonAssumptions...),
